@@ -74,6 +74,7 @@ func (zzParkInbound) HandleRead(ctx InboundContext, m Message) {
 //	scenario bit 0: a listener is started with Async      bit 1: an inbound connection is offered
 //	         bit 2: a client Connect runs concurrently    bit 3: the user also calls Listener.Close
 //	         bit 4: an application handler panics during activation and the exception is swallowed
+//	         bit 5: the channel id factory hands out the same id to every channel
 func ZZ_C13_Shutdown(scenario, queue int) {
 	fac := &zzFactory{}
 	inactives := 0
@@ -98,7 +99,13 @@ func ZZ_C13_Shutdown(scenario, queue int) {
 	if queue > 0 {
 		factory = NewAsyncWriteChannel(queue, true)
 	}
-	bs := NewBootstrap(WithTransport(fac), WithChildInitializer(initializer), WithClientInitializer(initializer), WithChannel(factory))
+	opts := []Option{WithTransport(fac), WithChildInitializer(initializer), WithClientInitializer(initializer), WithChannel(factory)}
+	if scenario&32 != 0 {
+		// an id factory that hands out the same id twice: the holder refuses the second channel with a panic during
+		// its activation; that channel is closed by the exception, the first one and the holder stay usable
+		opts = append(opts, WithChannelID(func() int64 { return 7 }))
+	}
+	bs := NewBootstrap(opts...)
 	var cbErr error
 	cbCalled := 0
 	vrt.Facet("scenario", scenario)
@@ -130,6 +137,9 @@ func ZZ_C13_Shutdown(scenario, queue int) {
 		vrt.Go("client", func() {
 			ch, err := bs.Connect("zz://zz:2")
 			vrt.Assert(err == nil && ch != nil, "c13-connect-succeeds-with-mock-factory")
+			if scenario&32 != 0 {
+				bs.Connect("zz://zz:3") // same id again: refused by the holder during activation
+			}
 		})
 	}
 	bs.Shutdown()
@@ -157,9 +167,14 @@ func ZZ_C13_Shutdown(scenario, queue int) {
 		served++
 		vrt.Assert(t.closes == 1, "c13-every-channel-transport-closed-exactly-once")
 	}
-	vrt.Assert(inactives == actives, "c13-inactive-exactly-once-per-activated-channel")
+	if scenario&32 != 0 {
+		// the refused channel's activation is cut short by the holder's panic before it reaches the counting handler;
+		// its inactive event is still delivered exactly once: one inactive per transport that became a channel
+		vrt.Assert(inactives == served, "c13-inactive-exactly-once-per-activated-channel")
+	} else {
+		vrt.Assert(inactives == actives, "c13-inactive-exactly-once-per-activated-channel")
+	}
 	vrt.Assert(!dead, "c13-no-goroutine-left-blocked")
-	_ = served
 	vrt.Reach("c13-done")
 }
 
